@@ -17,6 +17,7 @@ import (
 	"github.com/relab/gorums"
 	"github.com/relab/gorums/cmd/protoc-gen-gorums/dev"
 	"google.golang.org/grpc/codes"
+	"google.golang.org/grpc/metadata"
 	"google.golang.org/grpc/status"
 )
 
@@ -88,15 +89,17 @@ type Director struct {
 	KeepLog bool
 	Quit    chan struct{} // closed at teardown
 	Default func(server int, method, val string) *Script
-	MD      map[int]map[string][]string // conn -> incoming metadata (filled by the connect callback)
-	Connects map[int]int               // server -> number of connect callbacks
+	MD         map[int]map[string][]string // conn -> incoming metadata (filled by the connect callback)
+	Connects   map[int]int                 // server -> number of connect callbacks
+	ConnServer map[int]int                 // conn -> server
+	Callbacks  map[int]int                 // conn -> number of connect callbacks seen for that stream
 }
 
 func NewDirector() *Director {
 	return &Director{
 		byToken: map[key]*Script{}, fifo: map[key][]*Script{}, conns: map[context.Context]int{},
 		serials: map[int]int{}, Quit: make(chan struct{}), KeepLog: true,
-		MD: map[int]map[string][]string{}, Connects: map[int]int{},
+		MD: map[int]map[string][]string{}, Connects: map[int]int{}, ConnServer: map[int]int{}, Callbacks: map[int]int{},
 	}
 }
 
@@ -152,6 +155,30 @@ func (d *Director) event(e Event) {
 		e.Seq = len(d.Log)
 		d.Log = append(d.Log, e)
 	}
+}
+
+// Streams returns, per accepted stream (connection id), the server, the incoming metadata and the number of
+// connect callbacks; streams on which a handler ran without any callback appear with count 0.
+func (d *Director) Streams() map[int]struct {
+	Server    int
+	MD        map[string][]string
+	Callbacks int
+} {
+	d.mu.Lock()
+	defer d.mu.Unlock()
+	out := map[int]struct {
+		Server    int
+		MD        map[string][]string
+		Callbacks int
+	}{}
+	for _, id := range d.conns {
+		out[id] = struct {
+			Server    int
+			MD        map[string][]string
+			Callbacks int
+		}{d.ConnServer[id], d.MD[id], d.Callbacks[id]}
+	}
+	return out
 }
 
 // ConnectCount returns how many client streams server i has accepted so far.
@@ -392,6 +419,11 @@ func (c *Cluster) start(i int, l net.Listener) {
 	opts := append([]gorums.ServerOption{gorums.WithConnectCallback(func(ctx context.Context) {
 		c.D.mu.Lock()
 		c.D.Connects[idx]++
+		conn := c.D.connIDLocked(ctx)
+		md, _ := metadata.FromIncomingContext(ctx)
+		c.D.MD[conn] = md.Copy()
+		c.D.ConnServer[conn] = idx
+		c.D.Callbacks[conn]++
 		c.D.mu.Unlock()
 	})}, c.opts...)
 	srv := gorums.NewServer(opts...)
